@@ -7,16 +7,34 @@ META = dict(
 )
 SRC = 'C10/h_doio.cpp'
 SH = ['libc.c', 'sockstub.c']
-OPS = [('send', 0), ('write', 1), ('sendv', 2), ('writev', 3), ('sendmsg', 4), ('send_n', 10), ('write_n', 11), ('sendv_n', 12), ('writev_n', 13),
-       ('read', 20), ('recv', 21), ('readv', 22), ('recvmsg', 23), ('read_n', 30), ('readv_n', 31)]
+# (name, OP, vector?, loop?)
+OPS = [('send', 0, 0, 0), ('write', 1, 0, 0), ('sendv', 2, 1, 0), ('writev', 3, 1, 0), ('sendmsg', 4, 1, 0),
+       ('send_n', 10, 0, 1), ('write_n', 11, 0, 1), ('sendv_n', 12, 1, 1), ('writev_n', 13, 1, 1),
+       ('read', 20, 0, 0), ('recv', 21, 0, 0), ('readv', 22, 1, 0), ('recvmsg', 23, 1, 0), ('read_n', 30, 0, 1), ('readv_n', 31, 1, 1)]
+# the functions whose only loop is the doio_once retry loop (compiled with -fno-inline, so every loop keeps its function's name):
+# at most KINTR + KAGAIN retries, then one final attempt
+ONCE = ['_ZN6photon3net4sendEiPKvmiNS_7TimeoutE', '_ZN6photon3net7sendmsgEiPK6msghdriNS_7TimeoutE', '_ZN6photon3net5sendvEiPK5ioveciiNS_7TimeoutE',
+        '_ZN6photon3net4readEiPvmNS_7TimeoutE', '_ZN6photon3net5readvEiPK5ioveciNS_7TimeoutE', '_ZN6photon3net4recvEiPvmiNS_7TimeoutE',
+        '_ZN6photon3net7recvmsgEiP6msghdriNS_7TimeoutE']
+
+def doio_job(name, op, vec, nel, ml, ki, ka, timeout, extra=(), mem_gb=4):
+    tmax = nel * ml
+    us = ['ext_sk_setup.0:13', 'ext_sk_setup.1:17', 'ext_sk_setup.2:5'] + ['f_%s.0:%d' % (f, ki + ka + 1) for f in ONCE]
+    return Job(name, SRC, 'harness_doio', defines=['OP=%d' % op, 'NEL=%d' % nel, 'MLEN=%d' % ml, 'KINTR=%d' % ki, 'KAGAIN=%d' % ka] + list(extra),
+               clang=['-fno-inline'], unwind=tmax + 1, unwindset=us, cbmc=['-D', 'SK_LENMAX=%d' % (ml if vec else tmax)], shims=SH, timeout=timeout, mem_gb=mem_gb,
+               desc='net::%s over the stub stream socket' % name.split('.')[0],
+               bounds=('<=%d iovecs x <=%d bytes' % (nel, ml) if vec else 'buffer of <=%d bytes' % tmax) + ', EINTR<=%d EAGAIN<=%d' % (ki, ka))
 
 def jobs(tier):
     q = tier == 'quick'
-    ml = 2 if q else 3
-    ki, ka = (1, 1) if q else (2, 2)
     J = []
-    for nm, op in OPS:
-        J.append(Job(nm, SRC, 'harness_doio', defines=['OP=%d' % op, 'NEL=3', 'MLEN=%d' % ml, 'KINTR=%d' % ki, 'KAGAIN=%d' % ka], unwind=3 * ml + 3, shims=SH,
-                     timeout=300 if q else 3000, mem_gb=4,
-                     desc='net::%s over the stub stream socket' % nm, bounds='<=3 iovecs x <=%d bytes, EINTR<=%d EAGAIN<=%d' % (ml, ki, ka)))
+    for nm, op, vec, loop in OPS:
+        if q:
+            if vec and loop: J.append(doio_job(nm, op, vec, 2, 2, 1, 1, 300))
+            else: J.append(doio_job(nm, op, vec, 3, 2, 1, 1, 300))
+        else:
+            if vec and loop:
+                J.append(doio_job(nm, op, vec, 2, 2, 2, 2, 3000))
+                for c in range(1 if op == 31 else 0, 4): J.append(doio_job('%s.cnt%d' % (nm, c), op, vec, 3, 2, 1, 1, 3000, extra=['FIXCNT=%d' % c], mem_gb=8))
+            else: J.append(doio_job(nm, op, vec, 3, 3, 2, 2, 3000, mem_gb=8))
     return J
